@@ -252,6 +252,8 @@ def _t_qrnn(rng, di, bidir=False):
     l["bq"] = None
   if bidir:
     l["bidir"] = True
+  elif rng.chance(0.25):
+    l["as_cell"] = True
   return l
 
 
@@ -412,6 +414,13 @@ def _layer(l, name):
               return_sequences=l["return_sequences"])
     if l.get("bidir"):
       return qk.QBidirectional(cls(l["units"], **kw), name=name)
+    if l.get("as_cell"):
+      # the cell classes are public (and in the custom-object table): stock
+      # keras.layers.RNN wrapping a quantized cell
+      import tf_keras as keras
+      rs = kw.pop("return_sequences")
+      return keras.layers.RNN(getattr(qk, t + "Cell")(l["units"], **kw),
+                              return_sequences=rs, name=name)
     return cls(l["units"], name=name, **kw)
   if t == "QConv2DBatchnorm":
     return qk.QConv2DBatchnorm(
@@ -545,6 +554,14 @@ def quantizer_report(model):
           # comparison is still about sameness
           qs.append(_cfg_str(q))
       out.append((layer.name, qs))
+    elif hasattr(getattr(layer, "cell", None), "get_quantizers"):
+      qs = []
+      for q in layer.cell.get_quantizers():
+        try:
+          qs.append(str(q))
+        except Exception:  # pylint: disable=broad-except
+          qs.append(_cfg_str(q))
+      out.append((layer.name + "/cell", qs))
     if hasattr(layer, "activation") and not isinstance(
         getattr(layer, "activation", None), str):
       a = getattr(layer, "activation", None)
